@@ -88,6 +88,7 @@ type MuxReg struct {
 	Async  bool   `json:"async,omitempty"`
 	ParkUs int64  `json:"park_us,omitempty"` // handler parks this long before scribbling
 	Retain bool   `json:"retain,omitempty"`  // the handler returns at once and goes on using its message on a goroutine of its own
+	Embed  string `json:"embed,omitempty"`   // "mux" | "async": the handler is an application type that embeds *ServeMux / ServeAsync and overrides Serve
 }
 
 // Op is one application action.
